@@ -153,9 +153,12 @@ type GasSched struct {
 
 // Env is what the oracle knows about the executing shard's configuration.
 type Env struct {
-	Shard      uint32
-	NumShards  uint32
-	Sched      GasSched
+	Shard     uint32
+	NumShards uint32
+	Sched     GasSched
+	// SchedOf: function name -> schedule that function object was told directly (SetNewGasConfig on
+	// the object) after the shard's last accepted schedule change; absent for every other function
+	SchedOf    map[string]GasSched
 	DNS        map[string]bool
 	NameChange bool
 	// PayState: 0 payable, 1 non-payable, 2 erroring
